@@ -2,6 +2,7 @@ package merkle
 
 import (
 	"bytes"
+	"errors"
 	"fmt"
 
 	"github.com/tendermint/tendermint/crypto/tmhash"
@@ -93,8 +94,14 @@ func (op ValueOp) Run(args [][]byte) ([][]byte, error) {
 		return nil, fmt.Errorf("leaf hash mismatch: want %X got %X", op.Proof.LeafHash, kvhash)
 	}
 
+	rootHash := op.Proof.ComputeRootHash()
+	if rootHash == nil {
+		// a malformed proof must not verify against an empty root (e.g. an empty app hash)
+		return nil, errors.New("proof does not fit the shape of a tree with the given total")
+	}
+
 	return [][]byte{
-		op.Proof.ComputeRootHash(),
+		rootHash,
 	}, nil
 }
 
